@@ -74,7 +74,7 @@ def run_sim_property(ctx, props_files, monitor, what, deps=()):
     if runs and runs[0]["log"]:
         ctx.sample({"world_flags": worlds[0]["flags"], "first_log_entries": runs[0]["log"][1:9], "status": runs[0]["status"]})
     # a run that did not end normally is itself reported (C05 owns termination; here it breaks the tie)
-    abnormal = [(i, r) for i, r in enumerate(runs) if r["status"] not in ("ended", "solver-licence-limit")]
+    abnormal = [(i, r) for i, r in enumerate(runs) if r["status"] not in ("ended", "solver-licence-limit", "harness-timeout")]
     # 1. the property's own monitor on the implementation's logs: concrete failing inputs
     failures = []
     for i, (w, r) in enumerate(zip(worlds, runs)):
